@@ -6,7 +6,7 @@
 // pass the terminating Nil of the empty node as a last "term"; the constructor
 // skips it.  (Derived from the call site, see DESIGN.md C15.)
 pub open spec fn eff(s: Seq<Unifiable>) -> Seq<Unifiable> {
-    if s.len() >= 2 && s[s.len() - 1] == Unifiable::Nil { s.subrange(0, s.len() - 1) } else { s }
+    if s.len() >= 1 && s[s.len() - 1] == Unifiable::Nil { s.subrange(0, s.len() - 1) } else { s }
 }
 
 pub open spec fn is_list(t: Unifiable) -> bool { t is SLinkedList }
